@@ -64,6 +64,11 @@ pub struct StepObs {
     pub s: Option<(u64, u64)>,
     #[serde(default, skip_serializing_if = "Option::is_none")]
     pub c: Option<CfgBits>,
+    /// what was actually called: "read" | "rte" | "cfg" (a skip step is executed
+    /// as a plain read unless the previous call returned a Start event - the
+    /// documented precondition of read_to_end / read_text)
+    #[serde(default)]
+    pub did: String,
 }
 
 #[derive(Clone, Debug)]
@@ -87,7 +92,12 @@ macro_rules! drive {
     ($reader:ident, $steps:ident, $out:ident, $env_len:expr,
      read: $read:expr, rte: $rte:expr, rtext: $rtext:expr) => {{
         let mut last_start: Vec<u8> = Vec::new();
+        let mut fresh_start = false;
         for st in $steps {
+            let st = match st {
+                Step::ReadToEnd | Step::ReadText if !fresh_start => &Step::Read,
+                s => s,
+            };
             let so = match st {
                 Step::SetCfg { cfg } => {
                     apply_cfg($reader.config_mut(), cfg);
@@ -95,15 +105,18 @@ macro_rules! drive {
                         o: Obs { k: "Cfg".into(), p: $reader.buffer_position(), q: $reader.error_position(), ..Default::default() },
                         s: None,
                         c: Some(read_cfg($reader.config())),
+                        did: "cfg".into(),
                     }
                 }
                 Step::Read => {
+                    fresh_start = false;
                     let r = catch_unwind(AssertUnwindSafe(|| {
                         let res = $read;
                         if let Ok(ev) = &res {
                             touch_accessors(ev);
                             if let Event::Start(e) = ev {
                                 last_start = e.name().as_ref().to_vec();
+                                fresh_start = true;
                             }
                         }
                         project(&res)
@@ -112,12 +125,13 @@ macro_rules! drive {
                         Ok(mut o) => {
                             o.p = $reader.buffer_position();
                             o.q = $reader.error_position();
-                            StepObs { o, s: None, c: None }
+                            StepObs { o, s: None, c: None, did: "read".into() }
                         }
-                        Err(_) => StepObs { o: Obs { k: "Panic".into(), ..Default::default() }, s: None, c: None },
+                        Err(_) => StepObs { o: Obs { k: "Panic".into(), ..Default::default() }, s: None, c: None, did: "read".into() },
                     }
                 }
                 Step::ReadToEnd | Step::ReadText => {
+                    fresh_start = false;
                     let name = last_start.clone();
                     let want_text = matches!(st, Step::ReadText);
                     let r = catch_unwind(AssertUnwindSafe(|| {
@@ -139,14 +153,15 @@ macro_rules! drive {
                             },
                             s: Some((sp.start, sp.end)),
                             c: Some(read_cfg($reader.config())),
+                            did: "rte".into(),
                         },
                         Ok(Err(e)) => {
                             let mut o = project_err(&e);
                             o.p = $reader.buffer_position();
                             o.q = $reader.error_position();
-                            StepObs { o, s: None, c: Some(read_cfg($reader.config())) }
+                            StepObs { o, s: None, c: Some(read_cfg($reader.config())), did: "rte".into() }
                         }
-                        Err(_) => StepObs { o: Obs { k: "Panic".into(), ..Default::default() }, s: None, c: None },
+                        Err(_) => StepObs { o: Obs { k: "Panic".into(), ..Default::default() }, s: None, c: None, did: "rte".into() },
                     }
                 }
             };
@@ -218,4 +233,43 @@ pub fn run_reader(input: &[u8], cfg: &CfgBits, steps: &[Step], src: &Src) -> Run
 /// `n` plain read steps
 pub fn reads(n: usize) -> Vec<Step> {
     vec![Step::Read; n]
+}
+
+/// C08: read every event and write it back with `Writer::write_event`.
+/// Errors are skipped (a fatal one is followed by Eof). Returns the bytes written,
+/// or None when the code under test panicked.
+pub fn read_write(input: &[u8], cfg: &CfgBits, plan: Option<&Plan>) -> Option<Vec<u8>> {
+    let r = catch_unwind(AssertUnwindSafe(|| {
+        let mut out = Vec::new();
+        let mut w = quick_xml::Writer::new(&mut out);
+        let bound = input.len() + 5;
+        match plan {
+            None => {
+                let mut reader = Reader::from_reader(input);
+                apply_cfg(reader.config_mut(), cfg);
+                for _ in 0..bound {
+                    match reader.read_event() {
+                        Ok(Event::Eof) => break,
+                        Ok(ev) => w.write_event(ev).unwrap(),
+                        Err(_) => {}
+                    }
+                }
+            }
+            Some(p) => {
+                let mut reader = Reader::from_reader(Chunked::new(input, p.clone()));
+                apply_cfg(reader.config_mut(), cfg);
+                let mut buf = Vec::new();
+                for _ in 0..bound {
+                    buf.clear();
+                    match reader.read_event_into(&mut buf) {
+                        Ok(Event::Eof) => break,
+                        Ok(ev) => w.write_event(ev).unwrap(),
+                        Err(_) => {}
+                    }
+                }
+            }
+        }
+        out
+    }));
+    r.ok()
 }
